@@ -56,7 +56,7 @@ ASSUMPTIONS = [
 FAULT_KINDS = ["write-error-ENOSPC-at-close", "read-error-EIO", "consumer-stop-close", "consumer-stop-drop", "consumer-stop-hold", "raise-downstream",
                "raise-upstream-source", "raise-upstream-element", "drop_cache",
                "recompute", "process-crash"]
-EXPECTED_PROBES = ["held-run-finished-after-later-runs", "values-hold-one-object-twice", "write-error-surfaced-loudly", "held-generator-released-before-a-later-run", "other-object-ran-in-between", "downstream-updates-in-place", "source-reuses-one-context-object", "same-object-reused", "split-form-replay", "read-error-surfaced-loudly", "replay-run", "replay-after-interrupted-run", "stop-at-exact-length",
+EXPECTED_PROBES = ["values-of-many-builtin-types", "kept-hoisted-source-called-again", "hoisted-source-fails-loudly-without-its-cache", "held-run-finished-after-later-runs", "values-hold-one-object-twice", "write-error-surfaced-loudly", "held-generator-released-before-a-later-run", "other-object-ran-in-between", "downstream-updates-in-place", "source-reuses-one-context-object", "same-object-reused", "split-form-replay", "read-error-surfaced-loudly", "replay-run", "replay-after-interrupted-run", "stop-at-exact-length",
                    "two-caches-inner-replay", "hoisted-to-source", "empty-flow-cached",
                    "interrupted-recompute-over-existing-cache", "accumulator-upstream-of-replay"]
 
@@ -68,10 +68,14 @@ def set_tier(t):
 
 
 REPEAT = [False]   # set per history: values hold the same string object several times
+EXOTIC = [False]   # set per history: values hold sets, ranges, complex numbers, byte arrays
 
 
 def value(r, i, with_context):
     data = ("v", r, i)
+    if EXOTIC[0]:
+        # builtin types that older pickle protocols store by reference to their Python-2 names
+        data = data + (frozenset([i, -1]), set([i]), range(i + 1), complex(i, 1), bytearray(b"ab"))
     if REPEAT[0]:
         # one string object referred to from several places of the value (as the name of a plot is)
         s = "plot_%d_%d" % (r, i)
@@ -162,6 +166,7 @@ def gen_scenario(tape):
                    and tape.chance(1, 4, "downstream-updates-in-place"))
     # values that refer to one object from several places (pickle memoises such objects)
     sc.repeat = (not getattr(sc, "shared_ctx", False)) and tape.chance(1, 3, "values-hold-one-object-twice")
+    sc.exotic = (not getattr(sc, "shared_ctx", False)) and tape.chance(1, 4, "values-of-many-builtin-types")
     # a second pipeline object on the same cache files (another process, another notebook cell)
     sc.two = sc.reuse and sc.form != "split" and tape.chance(1, 2, "two-objects")
     nops = 1 + tape.draw(5, "nops")
@@ -179,6 +184,10 @@ def gen_scenario(tape):
         op.recompute = [tape.chance(1, 6, "recompute") for _ in range(sc.ncaches)]
         op.hoist = tape.weighted([(4, "none"), (2, "cache"), (1, "core")], "hoist")
         # generators that an earlier consumer stopped and kept are closed before this operation
+        # the Source that an earlier run got from alter_sequence was kept and is called again
+        after_drop = bool(sc.ops) and sc.ops[-1].kind == "drop"
+        op.rerun_hoisted = (sc.ncaches == 1 and op.kind != "drop"
+                            and tape.chance(1, 2 if after_drop else 8, "kept-hoisted-source-called-again"))
         op.release = tape.chance(1, 3, "release-held-generators")
         # ... or the consumer comes back and takes the rest of its flow
         op.release_how = tape.choice(["close", "finish"], "release-how") if op.release else "close"
@@ -338,6 +347,8 @@ class Pipeline(object):
             seq = lena.core.alter_sequence(seq)
         if isinstance(seq, lena.core.Source):
             hoisted = seq is not self.seq
+            if hoisted:
+                self.hoisted_seq = seq
             return seq(), hoisted
         return seq.run(self.src), hoisted
 
@@ -447,6 +458,9 @@ def run(tape):
     fs = SimFS(log)
     install(fs)
     REPEAT[0] = bool(getattr(sc, "repeat", False))
+    EXOTIC[0] = bool(getattr(sc, "exotic", False))
+    if EXOTIC[0]:
+        res.probe("values-of-many-builtin-types")
     if REPEAT[0]:
         res.probe("values-hold-one-object-twice")
     # an injected write error that surfaces while an abandoned generator is finalised cannot
@@ -509,6 +523,14 @@ def run(tape):
                     pass
                 allowed[op.target] = [None]
                 continue
+            if getattr(op, "rerun_hoisted", False) and shared.get("hoisted") is not None \
+                    and not op.eio and not getattr(op, "enospc", None) and not op.crash:
+                r += 1
+                fs.new_run()
+                # (an extra run in front of this operation)
+                rerun_hoisted(sc, shared["hoisted"], r, allowed, res, log, fs)
+                if res.violations:
+                    break
             r += 1
             fs.new_run()
             desc = "run %d: n=%d %s" % (r, op.n, op.kind)
@@ -598,6 +620,47 @@ def run(tape):
     return res
 
 
+def rerun_hoisted(sc, hpl, r, allowed, res, log, fs):
+    """The Source that alter_sequence made of the pipeline when its cache was filled is called
+    again, whatever happened to the cache since: if the cache is (still) there it replays it;
+    if not, it has no upstream to run - anything but a loud failure would be wrong data."""
+    res.say("run %d: the Source an earlier run got from alter_sequence is called again" % r)
+    log.ev("op", "rerun-hoisted", r)
+    res.probe("kept-hoisted-source-called-again")
+    plain = _plain_op(sc)
+    hpl.configure(plain, r)
+    out, exc = [], None
+    try:
+        for v in hpl.hoisted_seq():
+            out.append(v)
+            log.ev("out", len(out) - 1, summarize(v))
+    except Exception as e:  # noqa: BLE001
+        exc = type(e).__name__
+        log.ev("raise", "rerun-hoisted", exc)
+        e.__traceback__ = None
+    stored = [p for p in allowed[0] if p is not None]
+    if exc is None:
+        ok = [p for p in stored if model_run(sc, plain, r, (p,))["out"] == out]
+        if ok and hpl.upstream_activity(0) == 0:
+            allowed[0] = ok
+            res.nontrivial = True
+            return
+        res.viol("C18:Cache:kept-hoisted-source:%s" % ("silent-wrong-flow" if not ok else "ran-upstream"),
+                 "the hoisted Source yielded %s without an error; the cache holds %s"
+                 % (_short(out), "nothing" if not stored else " or ".join(_short(list(p)) for p in stored)))
+        return
+    # a loud failure: right when there is no cache to replay; it must not have published one
+    if None not in allowed[0]:
+        res.viol("C18:Cache:kept-hoisted-source:raises-%s" % exc,
+                 "the hoisted Source raised %s although the cache is filled" % exc)
+        return
+    res.probe("hoisted-source-fails-loudly-without-its-cache")
+    allowed[0] = [None]
+    if hpl.caches[0].cache_exists():
+        res.viol("C18:Cache:kept-hoisted-source:published-a-cache",
+                 "the failed call (%s) of the hoisted Source left a cache file behind" % exc)
+
+
 def finish_held(sc, g, fin, allowed, res, log):
     """The consumer of an earlier, stopped run takes the rest of its flow: the run is a complete
     first run after all (whatever ran in between): it yields the rest of its flow unaltered and
@@ -644,6 +707,7 @@ def _plain_op(sc):
     op.obj = 0
     op.release = False
     op.release_how = "close"
+    op.rerun_hoisted = False
     return op
 
 
@@ -670,6 +734,8 @@ def execute_run(sc, op, log, r, res, fs, shared=None):
         if shared is not None:
             shared["last-obj"] = getattr(op, "obj", 0)
         gen, hoisted = pl.start(op.hoist)
+        if hoisted and shared is not None:
+            shared["hoisted"] = pl
         want = op.k if op.kind == "stop" else None
         while want is None or len(out) < want:
             try:
